@@ -232,6 +232,17 @@ def encode_content(payload: bytes, coding: str) -> tuple[bytes, str | None]:
         return rawdeflate_bytes(payload), "deflate"
     if coding == "zstd":
         return zstd_bytes(payload), "zstd"
+    if coding == "zstdmb":
+        # one frame, several blocks (flushed every few bytes) and a content checksum: cut-off points exist at inner
+        # block boundaries and inside / before the checksum, where a decoder has already produced all the output
+        import zstandard
+
+        c = zstandard.ZstdCompressor(write_checksum=True, write_content_size=False).compressobj()
+        out = b""
+        step = max(1, len(payload) // 4)
+        for i in range(0, len(payload), step):
+            out += c.compress(payload[i : i + step]) + c.flush(zstandard.COMPRESSOBJ_FLUSH_BLOCK)
+        return out + c.flush(), "zstd"
     if coding == "zstd2":
         h = len(payload) // 2
         return zstd_bytes(payload[:h]) + zstd_bytes(payload[h:]), "zstd"
